@@ -297,7 +297,8 @@ def handleC13 (c : Case) (secs : List String) : String :=
   let v := match obs with
     | none => "FAIL"
     | some o => if c.judged then verdict (c13 cwd (c.stmts.map toStmtCase) o) else "na"
-  s!"{model} || C12=na C13={v} C19=na C05=na"
+  -- `--vars` is C20's business too: the rows of the listing are the evaluated values (VARS is compared; the verdict is C13's)
+  s!"{model} || C12=na C13={v} C19=na C05=na C20={v}"
 
 def handle (line : String) : String :=
   match line.splitOn " | " with
